@@ -290,6 +290,101 @@ impl NamespaceResolver {
 //@end
 }
 
+//@extract name::PrefixDeclaration | src/name.rs :: enum PrefixDeclaration | serves=C05
+ pub enum PrefixDeclaration<'a> {
+    /// XML attribute binds a default namespace. Corresponds to `xmlns` in `xmlns="..."`
+    Default,
+    /// XML attribute binds a specified prefix to a namespace. Corresponds to a
+    /// `prefix` in `xmlns:prefix="..."`, which is stored as payload of this variant.
+    Named(&'a [u8]),
+}
+//@end
+//@extract name::PrefixIter | src/name.rs :: struct PrefixIter | serves=C05
+ pub struct PrefixIter<'a> {
+    pub resolver: &'a NamespaceResolver,
+    pub bindings_cursor: usize,
+}
+//@end
+// (the method of `impl Iterator for PrefixIter` is hosted in an inherent impl)
+impl<'a> PrefixIter<'a> {
+//@extract name::PrefixIter::next | src/name.rs :: impl<'a> Iterator for PrefixIter<'a> :: fn next | serves=C05
+//@rewrite self.resolver.bindings[self.bindings_cursor..] .iter() .any(|ne| ==> shim::any_ref(&self.resolver.bindings[self.bindings_cursor..], |ne: &NamespaceEntry|
+    #[verifier::loop_isolation(false)]
+    pub fn next(&mut self) -> (r: Option<(PrefixDeclaration<'a>, Namespace<'a>)>)
+        requires old(self).resolver.wf()
+        ensures
+            final(self).resolver == old(self).resolver,
+            ({
+                let bs = old(self).resolver.bindings@;
+                let buf = old(self).resolver.buffer@;
+                match r {
+                    // the next binding that is in effect: bound and not re-declared later; it is exactly what
+                    // resolving its prefix yields (the listing agrees with resolution)
+                    Some((pd, ns)) => exists|i: int| old(self).bindings_cursor <= i < bs.len() && final(self).bindings_cursor == i + 1
+                        && #[trigger] listed(bs, buf, i)
+                        && (forall|j: int| old(self).bindings_cursor <= j < i ==> !listed(bs, buf, j))
+                        && ns.0@ == bs[i].spec_value(buf) && pd_view(pd) == bs[i].spec_prefix(buf)
+                        && spec_resolve(bs, buf, bs[i].spec_prefix(buf), true) == AbsRes::Bound(ns.0@),
+                    None => forall|j: int| old(self).bindings_cursor <= j < bs.len() ==> !listed(bs, buf, j),
+                }
+            }),
+    {
+        let ghost bs = self.resolver.bindings@;
+        let ghost buf = self.resolver.buffer@;
+        let ghost c0 = self.bindings_cursor;
+        loop
+            invariant
+                self.resolver == old(self).resolver, c0 <= self.bindings_cursor,
+                forall|j: int| c0 <= j < self.bindings_cursor && j < bs.len() ==> !listed(bs, buf, j),
+            decreases bs.len() - self.bindings_cursor
+        { match self.resolver.bindings.get(self.bindings_cursor) { Some(namespace_entry) => {
+            let ghost i = self.bindings_cursor as int;
+            proof { assert(self.resolver.bindings.len() == bs.len()); }
+            self.bindings_cursor += 1; // We increment for next read
+
+            // We check if the key has not been overridden by having a look
+            // at the namespaces declared after in the array
+            let prefix = namespace_entry.prefix(&self.resolver.buffer);
+            if shim::any_ref(&self.resolver.bindings[self.bindings_cursor..], |ne: &NamespaceEntry| -> (b: bool)
+                    requires ne.start + ne.prefix_len + ne.value_len <= self.resolver.buffer@.len()
+                    ensures b == (pfx_view(prefix) == ne.spec_prefix(buf))
+                { prefix == ne.prefix(&self.resolver.buffer) })
+            {
+                proof {
+                    let tail = bs.subrange(i + 1, bs.len() as int);
+                    let k = choose|k: int| 0 <= k < tail.len() && pfx_view(prefix) == (#[trigger] tail[k]).spec_prefix(buf);
+                    assert(bs[i + 1 + k].spec_prefix(buf) == bs[i].spec_prefix(buf));
+                    assert(!listed(bs, buf, i));
+                }
+                continue; // Overridden
+            }
+            proof {
+                let tail = bs.subrange(i + 1, bs.len() as int);
+                assert forall|j: int| i < j < bs.len() implies (#[trigger] bs[j]).spec_prefix(buf) != bs[i].spec_prefix(buf) by {
+                    assert(tail[j - i - 1] == bs[j]);
+                }
+            }
+            let namespace = if let ResolveResult::Bound(namespace) =
+                namespace_entry.namespace(&self.resolver.buffer)
+            {
+                namespace
+            } else {
+                proof { assert(!listed(bs, buf, i)); }
+                continue; // We don't return unbound namespaces
+            };
+            proof { assert(listed(bs, buf, i)); lemma_listed_resolves(bs, buf, i); }
+            let prefix = if let Some(Prefix(prefix)) = prefix {
+                PrefixDeclaration::Named(prefix)
+            } else {
+                PrefixDeclaration::Default
+            };
+            return Some((prefix, namespace));
+        } _ => { break; } } }
+        None // We have exhausted the array
+    }
+//@end
+}
+
 impl<R> NsReader<R> {
 //@extract ns_reader::NsReader::read_event_impl | src/reader/ns_reader.rs :: impl<R> NsReader<R> :: fn read_event_impl | serves=C05
     fn read_event_impl<'i, B>(&mut self, buf: B) -> (r: Result<Event<'i>>)
